@@ -195,18 +195,27 @@ def r11c(ctx):
             why = "text of an element-only element" if ok else "text of a textual element is its character content"
         ctx.instance("R11c", f"{f.file}:{f.ident}", f"{norm(w, 50)}: {why}", ok=ok, nontrivial=True, line=w.lineno)
         if not ok:
-            gtxt = " & ".join(("" if pol else "!") + norm(g, 28).replace("tag in TEXT_CONTENT", "textual").replace("tag == 'office:binary-data'", "binary")
-                              for g, pol in gs)
+            def role(g):
+                # guards named by what they test, not by how the locals are spelled
+                if g is arms.test:
+                    return "textual"
+                if isinstance(g, ast.Compare) and any(isinstance(x, ast.Constant) and x.value == "office:binary-data" for x in ast.walk(g)):
+                    return "binary"
+                return norm(g, 28)
+
+            gtxt = " & ".join(("" if pol else "!") + role(g) for g, pol in gs)
             ctx.report("R11c", f, w, f"{norm(w, 40)} under {gtxt}",
                        f"pretty_indent writes indentation into character content: {why}; the readable text of the paragraph changes "
                        f"when the document is saved pretty")
     # the recursion hands `is_textual` down as textual_parent
     rec = [c for c in walk_no_nested(f.node) if isinstance(c, ast.Call) and call_name(c) == "pretty_indent"]
-    ok = bool(rec) and all(len(c.args) >= 4 and ast.unparse(c.args[3]) == "is_textual" for c in rec)
+    passed = {c.args[3].id for c in rec if len(c.args) >= 4 and isinstance(c.args[3], ast.Name)}
+    tv = next(iter(passed)) if len(passed) == 1 else None  # the local that says "this element is textual"
+    ok = bool(rec) and tv is not None and all(len(c.args) >= 4 and isinstance(c.args[3], ast.Name) and c.args[3].id == tv for c in rec)
     ctx.instance("R11c", f"{f.file}:{f.ident}", "children are indented with textual_parent = is_textual of this element", ok=ok, nontrivial=True)
     if not ok:
         ctx.report("R11c", f, f.node, "recursion does not pass is_textual", "children are not told that their parent is textual")
-    ok = any(isinstance(n, ast.Assign) and isinstance(n.targets[0], ast.Name) and n.targets[0].id == "is_textual" and isinstance(n.value, ast.Constant)
+    ok = any(isinstance(n, ast.Assign) and isinstance(n.targets[0], ast.Name) and n.targets[0].id == tv and isinstance(n.value, ast.Constant)
              and n.value.value is True and any(g is arms.test and pol for g, pol in structural_guards(n, stop=f.node)) for n in walk_no_nested(f.node))
     ctx.instance("R11c", f"{f.file}:{f.ident}", "elements of TEXT_CONTENT are marked textual", ok=ok)
     if not ok:
